@@ -13,7 +13,7 @@ from __future__ import annotations
 from dataclasses import dataclass, field
 from typing import Dict, List, Optional, Tuple
 
-from .ir import Event, LoopInfo, Term, Walker, mk_not, show, subterms
+from .ir import Event, LoopInfo, Term, Walker, facts, mk_not, show, subterms
 from .kinds import Kinds, count_of, node_of, nodes_of
 
 
@@ -201,9 +201,16 @@ class Competition:
     updates: List[UpdateSite] = field(default_factory=list)
     events: List[Event] = field(default_factory=list)  # all events inside the loop
     top: List[Event] = field(default_factory=list)  # events directly in the loop body
+    counted: bool = False  # `for _ in range(G.n_nodes)` over a fully seeded queue instead of `while not empty`
 
     def hcost(self, e: Term) -> Term:
         return ("idx", ("attr", self.heap, "cost"), e)
+
+    def body_guards(self):
+        """Guards every statement of the loop body runs under."""
+        if self.loop.cond is None:
+            return tuple(self.loop.guards)
+        return tuple(self.loop.guards) + ((self.loop.cond, True),)
 
     def node(self, e: Term) -> Term:
         return ("idx", ("attr", self.graph, "nodes"), e)
@@ -224,6 +231,11 @@ def find_competitions(w: Walker, kinds: Kinds = None) -> List[Competition]:
     kinds = kinds or Kinds(w)
     comps = []
     for li in w.loops.values():
+        if li.kind == "for":
+            cc = _counted_competition(w, li, kinds)
+            if cc is not None:
+                comps.append(_fill_competition(w, li, kinds, cc[0], cc[1], 0, counted=True))
+            continue
         if li.kind != "while" or li.cond is None:
             continue
         c = li.cond
@@ -247,6 +259,60 @@ def find_competitions(w: Walker, kinds: Kinds = None) -> List[Competition]:
                 break
         if rem is None:
             continue
+        comps.append(_fill_competition(w, li, kinds, heap, rem, 1))
+    return comps
+
+
+def _counted_competition(w: Walker, li: LoopInfo, kinds: Kinds):
+    """`for _ in range(G.n_nodes): p = H.remove()`: sound only when the queue holds every node of G before
+    the loop (one unconditional insert per node of G into a queue sized for G), exactly one removal happens
+    per iteration, unconditionally, and the loop variable is not used: then the k-th removal finds n - k + 1
+    elements (H.update cannot insert, no node is WHITE)."""
+    dom = li.domain
+    if dom is None or dom[0] != "call" or dom[1] != ("builtin", "range") or dom[3]:
+        return None
+    args = dom[2]
+    if not (len(args) == 1 or (len(args) == 2 and args[0] == ("const", 0))):
+        return None
+    g = count_of(args[-1])
+    if g is None:
+        return None
+    depth = len(li.loops) + 1
+    rems = [e for e in w.events if li.lid in e.loops and e.kind == "call" and e.name == "remove"
+            and e.value is not None and e.value[0] == "hremove"]
+    if len(rems) != 1:
+        return None
+    rem = rems[0]
+    heap = rem.value[1]
+    if len(rem.loops) != depth or facts(rem.guards) != facts(li.guards):
+        return None
+    if kinds.heap_graph(heap) != g:
+        return None
+    me = ("iter", dom, li.lid)
+    # all removals of this queue in the function are this one
+    if any(e is not rem and e.kind == "call" and e.name == "remove" and e.target == ("attr", heap, "remove")
+           for e in w.events):
+        return None
+    # full seeding
+    seeded = False
+    for l2 in w.loops.values():
+        nl = node_loop(l2)
+        if nl is None or nl[0] != g or nl[1] is None or l2.last_seq >= li.first_seq or l2.guards != li.guards \
+                or l2.loops != li.loops:
+            continue
+        ins = [e for e in w.events if e.kind == "call" and e.name == "insert" and e.target == ("attr", heap, "insert")
+               and e.loops == l2.loops + (l2.lid,)]
+        if len(ins) == 1 and ins[0].args == (nl[1],) and facts(ins[0].guards) == facts(l2.guards):
+            seeded = True
+    if not seeded:
+        return None
+    return heap, rem
+
+
+def _fill_competition(w: Walker, li: LoopInfo, kinds: Kinds, heap: Term, rem: Event, own: int,
+                      counted: bool = False) -> "Competition":
+    if True:
+        inside = [e for e in w.events if li.lid in e.loops]
         comp = Competition(
             w, li, heap, kinds.heap_policy(heap), kinds.heap_graph(heap), rem.value, rem,
             events=inside,
@@ -263,7 +329,7 @@ def find_competitions(w: Walker, kinds: Kinds = None) -> List[Competition]:
                     nl = w.loops[lid]
                     break
                 inner = []
-                for g, pol in e.guards[len(li.guards) + 1:]:
+                for g, pol in e.guards[len(li.guards) + own:]:
                     if pol and g[0] == "and":
                         inner.extend((x, True) for x in g[1])
                     else:
@@ -284,8 +350,8 @@ def find_competitions(w: Walker, kinds: Kinds = None) -> List[Competition]:
 
                 inner = tuple((unold(g), pol) for g, pol in inner)
                 comp.updates.append(UpdateSite(e, unold(e.args[0]), unold(e.args[1]), inner, nl))
-        comps.append(comp)
-    return comps
+        comp.counted = counted
+        return comp
 
 
 def nonempty_guard(g: Term, pol: bool, heap: Term) -> bool:
